@@ -80,7 +80,9 @@ def volOpen (bytes : Bytes) (ops : List Op) : String :=
   | .error e => "open:" ++ showE e
   | .ok v =>
     let rs := Obj.run { view := v, rpos := 0 } ops
-    joinWith "," ("open:ok" :: (List.zipWith showRes ops rs))
+    -- an attacker-sized allocation in the middle of a call sequence ends the case, as the capped allocator does
+    if rs.any (fun r => match r with | .fail (.err .alloc) => true | _ => false) then "err:alloc"
+    else joinWith "," ("open:ok" :: (List.zipWith showRes ops rs))
 
 def member? : List String → Option (List Spec.Member)
   | [] => some []
